@@ -421,3 +421,132 @@ pub fn loco_trace(r: &mut Rng, loco: Locomotive, n: usize, allow_off: bool) -> V
     }
     out
 }
+
+// ---------------------------------------------------------------- consists
+use altrios_core::consist::consist_utils::{PowerDistributionControlType, Proportional, RESGreedy};
+use altrios_core::consist::Consist;
+use altrios_core::consist::consist_sim::ConsistSimulation;
+use altrios_core::traits::SerdeAPI;
+
+pub fn rand_consist(r: &mut Rng) -> Consist {
+    let n = 1 + r.below(8);
+    let kind = r.below(4); // 0 mixed, 1 all conv, 2 all bel, 3 mixed
+    let locos: Vec<Locomotive> = (0..n).map(|_| {
+        let bel = match kind { 1 => false, 2 => true, _ => r.chance(0.45) };
+        let mut l = if bel { rand_bel_loco(r) } else { rand_conv_loco(r) };
+        if bel && r.chance(0.25) {
+            // depleted or full battery
+            if let PowertrainType::BatteryElectricLoco(b) = &mut l.loco_type {
+                b.res.state.soc = if r.chance(0.5) { b.res.min_soc + uc::R * r.range(0.0, 0.02) } else { b.res.max_soc - uc::R * r.range(0.0, 0.02) };
+            }
+        }
+        l
+    }).collect();
+    let pdct = if r.chance(0.5) { PowerDistributionControlType::Proportional(Proportional) } else { PowerDistributionControlType::RESGreedy(RESGreedy) };
+    let mut c = Consist::new(locos, None, pdct);
+    if r.chance(0.8) { c.init().expect("consist init"); }
+    c
+}
+
+pub fn coq_consist(c: &Consist) -> String {
+    let s = &c.state;
+    let pd = match &c.pdct { PowerDistributionControlType::Proportional(_) => "Proportional", PowerDistributionControlType::RESGreedy(_) => "RESGreedy", _ => panic!("pdct outside the model") };
+    let al = consist_assert_limits(c);
+    format!("(Build_Consist [{}] {} {} (Build_ConsistState {} {} {} {} {} {} {} {} {} {} {} {} {} {} {} {} {} {} {}))",
+        c.loco_vec.iter().map(coq_loco).collect::<Vec<_>>().join("; "), pd, cb(al),
+        cz(s.i as i64), cf(s.pwr_out_max.value), cf(s.pwr_rate_out_max.value), cf(s.pwr_regen_max.value),
+        cf(s.pwr_out_max_reves.value), cf(s.pwr_out_deficit.value), cf(s.pwr_out_max_non_reves.value),
+        cf(s.pwr_regen_deficit.value), cf(s.pwr_dyn_brake_max.value), cf(s.pwr_out_req.value),
+        cf(s.pwr_cat_lim.value), cf(s.pwr_out.value), cf(s.pwr_reves.value), cf(s.pwr_fuel.value),
+        cf(s.energy_out.value), cf(s.energy_out_pos.value), cf(s.energy_out_neg.value),
+        cf(s.energy_res.value), cf(s.energy_fuel.value))
+}
+/// `assert_limits` of a Consist is private; it is serialized, so read it from there.
+pub fn consist_assert_limits(c: &Consist) -> bool {
+    serde_json::to_value(c).ok().and_then(|v| v.get("assert_limits").and_then(|b| b.as_bool())).unwrap_or(true)
+}
+pub fn consist_rated(c: &Consist) -> f64 { c.loco_vec.iter().map(loco_rated).sum::<f64>().max(1.0) }
+pub fn outs_consist(c: &Consist) -> Outs {
+    let s = &c.state; let p = consist_rated(c); let e = p * 100.0;
+    let mut o = Outs::new();
+    o.f("con.pwr_out_max", s.pwr_out_max.value, p); o.f("con.pwr_rate_out_max", s.pwr_rate_out_max.value, p);
+    o.f("con.pwr_regen_max", s.pwr_regen_max.value, p); o.f("con.pwr_out_max_reves", s.pwr_out_max_reves.value, p);
+    o.f("con.pwr_out_deficit", s.pwr_out_deficit.value, p); o.f("con.pwr_out_max_non_reves", s.pwr_out_max_non_reves.value, p);
+    o.f("con.pwr_regen_deficit", s.pwr_regen_deficit.value, p); o.f("con.pwr_dyn_brake_max", s.pwr_dyn_brake_max.value, p);
+    o.f("con.pwr_out_req", s.pwr_out_req.value, p); o.f("con.pwr_out", s.pwr_out.value, p);
+    o.f("con.pwr_reves", s.pwr_reves.value, p); o.f("con.pwr_fuel", s.pwr_fuel.value, p);
+    o.f("con.energy_out", s.energy_out.value, e); o.f("con.energy_out_pos", s.energy_out_pos.value, e);
+    o.f("con.energy_out_neg", s.energy_out_neg.value, e); o.f("con.energy_res", s.energy_res.value, e);
+    o.f("con.energy_fuel", s.energy_fuel.value, e);
+    for (i, l) in c.loco_vec.iter().enumerate() { o.extend(outs_loco(l).prefixed(&format!("l{}.", i))); }
+    o
+}
+
+pub struct ConsistStep {
+    pub pre: Consist,
+    pub pwr: f64,
+    pub dt: f64,
+    pub post: Result<Consist, (i64, String)>,
+    pub mode: &'static str,
+}
+
+pub fn consist_err_code(e: &anyhow::Error) -> (i64, String) {
+    let m = format!("{:#}", e);
+    let table: &[(&str, i64)] = &[
+        ("exceeds max DB power", 903), ("exceeds max power (", 904), ("self.state.pwr_out_req:", 905), ("surplus_frac", 902),
+    ];
+    for (pat, code) in table { if m.contains(pat) { return (*code, m); } }
+    err_code(e)
+}
+
+/// Drive a consist through `n` steps of `ConsistSimulation::step`, demands chosen relative to the
+/// limits the consist publishes for that step (peeked on a clone).
+pub fn consist_trace(r: &mut Rng, con: Consist, n: usize) -> Vec<ConsistStep> {
+    use altrios_core::consist::LocoTrait;
+    let mut sim = ConsistSimulation::new(con, PowerTrace::new(vec![0.0], vec![0.0], vec![Some(true)]), None);
+    let mut out = Vec::new();
+    let mut t = 0.0f64;
+    for _ in 0..n {
+        let dt = *r.pick(&[1.0, 1.0, 0.5, 0.1, 2.0, 10.0, 30.0]) * if r.chance(0.3) { r.range(0.5, 1.5) } else { 1.0 };
+        let mut peek = sim.loco_con.clone();
+        let _ = peek.set_pwr_aux(Some(true));
+        let ok = catch(std::panic::AssertUnwindSafe(|| peek.set_cur_pwr_max_out(None, uc::S * dt))).map(|x| x.is_ok()).unwrap_or(false);
+        let (pmax, rmax, pres) = if ok { (peek.state.pwr_out_max.value, peek.state.pwr_regen_max.value, peek.state.pwr_out_max_reves.value) } else { (1e5, 0.0, 0.0) };
+        let dbmax: f64 = sim.loco_con.loco_vec.iter().map(edrv_max).sum();
+        let (mode, pwr): (&'static str, f64) = match r.below(14) {
+            0 => ("zero", 0.0),
+            1 | 2 | 3 => ("frac_max", pmax * r.range(0.02, 0.98)),
+            4 => ("at_max", pmax),
+            5 => ("just_above_max", pmax * (1.0 + 1e-6) + 1.0),
+            6 => ("far_above_max", pmax.abs() * r.range(1.2, 3.0) + 1e3),
+            7 => if pres > 0.0 { ("within_reves", pres * r.range(0.02, 0.98)) } else { ("frac_max", pmax * r.range(0.02, 0.98)) },
+            8 => if pres > 0.0 { ("at_reves", pres) } else { ("small", pmax * 1e-4) },
+            9 => if rmax > 0.0 { ("regen_frac", -rmax * r.range(0.02, 0.98)) } else { ("brake_small", -dbmax * r.range(0.01, 0.3)) },
+            10 => if rmax > 0.0 { ("regen_at_max", -rmax) } else { ("brake_mid", -dbmax * r.range(0.3, 0.9)) },
+            11 => ("brake_beyond_regen", -(rmax + (dbmax - rmax).max(0.0) * r.range(0.05, 0.95))),
+            12 => ("brake_at_db_max", -dbmax),
+            _ => ("brake_beyond_db", -dbmax * 1.01 - 10.0),
+        };
+        t += dt;
+        sim.power_trace.time.push(uc::S * t);
+        sim.power_trace.pwr.push(uc::W * pwr);
+        sim.power_trace.engine_on.push(Some(true));
+        let real_dt = sim.power_trace.dt(sim.i).value;
+        let pre = sim.loco_con.clone();
+        let res = catch(std::panic::AssertUnwindSafe(|| sim.step()));
+        let post = match res {
+            Ok(Ok(())) => Ok(sim.loco_con.clone()),
+            Ok(Err(e)) => Err(consist_err_code(&e)),
+            Err(p) => Err((-1, p)),
+        };
+        let failed = post.is_err();
+        out.push(ConsistStep { pre: pre.clone(), pwr, dt: real_dt, post, mode });
+        if failed {
+            sim.loco_con = pre;
+            let k = sim.power_trace.len() - 1;
+            sim.power_trace.trim(None, Some(k)).unwrap();
+            t -= dt;
+        }
+    }
+    out
+}
